@@ -1,9 +1,75 @@
 //! Native replay of a Kani counterexample: `replay <harness> <hex,hex,...>` where each hex item is
 //! one `any()` value (little-endian bytes).  Exit 0 = harness passed on these values (counterexample
 //! does NOT reproduce), 101 = panic (reproduces), 3 = values violate the harness assumptions.
+/// the value patterns of the crate's self-test: first value sweeps 0..=255 (the case selector of
+/// dispatch harnesses), the others follow a few bit patterns
+#[cfg(not(kani))]
+fn pattern(seed: u32) -> Vec<Vec<u8>> {
+    let v0 = (seed & 255) as u8;
+    let pat = seed >> 8;
+    (0..24)
+        .map(|i| {
+            let b = if i == 0 {
+                v0
+            } else {
+                match pat {
+                    0 => 0,
+                    1 => 1,
+                    2 => (i % 2) as u8,
+                    3 => ((i + 1) % 2) as u8,
+                    4 => 255,
+                    5 => 2,
+                    6 => (i as u8).wrapping_mul(37),
+                    _ => 128,
+                }
+            };
+            vec![b, 0, 0, 0, 0, 0, 0, 0]
+        })
+        .collect()
+}
+
+/// `replay --search <harness> <assertion text>`: look for recorded-style values on which the harness
+/// panics natively with a message containing the text.  Used to obtain a replayable witness for an
+/// assertion the solver reported as FAILED without paying for Kani's concrete playback.
+#[cfg(not(kani))]
+fn search(name: &str, needle: &str) -> i32 {
+    use std::sync::Mutex;
+    static LAST: Mutex<String> = Mutex::new(String::new());
+    std::panic::set_hook(Box::new(|info| {
+        let msg = info
+            .payload()
+            .downcast_ref::<&str>()
+            .map(|s| s.to_string())
+            .or_else(|| info.payload().downcast_ref::<String>().cloned())
+            .unwrap_or_default();
+        *LAST.lock().unwrap() = msg;
+    }));
+    let Some((_, f)) = core_harness::HARNESSES.iter().find(|(n, _)| *n == name) else {
+        return 4;
+    };
+    for seed in 0u32..2048 {
+        let vals = pattern(seed);
+        core_harness::nd::load(vals.clone());
+        if std::panic::catch_unwind(f).is_err() {
+            let msg = LAST.lock().unwrap().clone();
+            if msg != core_harness::nd::ASSUME_VIOLATED && msg.contains(needle) {
+                let (used, _) = core_harness::nd::consumed();
+                let hex: Vec<String> = vals.iter().take(used.max(1)).map(|v| format!("{:02x}", v[0])).collect();
+                println!("FOUND {} | {}", hex.join(","), msg);
+                return 0;
+            }
+        }
+    }
+    println!("NOTFOUND");
+    1
+}
+
 #[cfg(not(kani))]
 fn main() {
     let args: Vec<String> = std::env::args().collect();
+    if args.len() >= 4 && args[1] == "--search" {
+        std::process::exit(search(&args[2], &args[3]));
+    }
     if args.len() < 2 {
         for (name, _) in core_harness::HARNESSES {
             println!("{name}");
